@@ -319,3 +319,110 @@ def xsd_case(rng, annotation_len=None):
         insts.append(hdr % (NS, extra) + "".join(body) + "</c:doc>")
     insts.append('<other xmlns="urn:unknown"/>')
     return xsd, insts, feats
+
+
+# ---------------------------------------------------------------------------------------------------------
+# name clashes: user-defined components named like built-in types / like each other across namespaces
+# ---------------------------------------------------------------------------------------------------------
+NSB = "urn:c16b"
+_BUILTIN_OK = {"integer": ("12", "x1"), "string": ("any thing", None), "date": ("2001-01-01", "12"), "ID": ("id1", "1 2"),
+               "decimal": ("1.5", "abc"), "boolean": ("true", "maybe"), "token": ("a b", None), "NCName": ("abc", "1:2"),
+               "int": ("7", "x"), "anyURI": ("http://a", None), "double": ("1e3", "abc"), "QName": ("xs:a", "1:1:1")}
+_CLASH_NAMES = ["integer", "string", "date", "ID", "decimal", "boolean", "token", "NCName", "int", "anyURI", "double", "QName",
+                "anyType", "anySimpleType"]
+
+
+def _user_def(rng, prefix, name):
+    """a user-defined simple type called `name`: (declaration, valid lexicals, invalid lexicals); deliberately unlike xs:name"""
+    k = rng.randrange(6)
+    if k == 0:
+        v = ["one%d" % rng.randrange(9), "two"]
+        return ('<xs:simpleType name="%s"><xs:restriction base="xs:string"><xs:enumeration value="%s"/><xs:enumeration value="%s"/></xs:restriction></xs:simpleType>' % (name, v[0], v[1]), v, ["zzz", "12", "2001-01-01"])
+    if k == 1:
+        return ('<xs:simpleType name="%s"><xs:restriction base="xs:token"><xs:pattern value="[a-c]+"/></xs:restriction></xs:simpleType>' % name, ["abc", " cab "], ["12", "true", "abd"])
+    if k == 2:
+        lo = rng.randrange(100, 900)
+        return ('<xs:simpleType name="%s"><xs:restriction base="xs:int"><xs:minInclusive value="%d"/><xs:maxInclusive value="%d"/></xs:restriction></xs:simpleType>' % (name, lo, lo + 50), [str(lo), str(lo + 50)], ["12", "abc", str(lo + 51)])
+    if k == 3:
+        return ('<xs:simpleType name="%s"><xs:list itemType="xs:boolean"/></xs:simpleType>' % name, ["true false", "1"], ["abc", "12"])
+    if k == 4:
+        return ('<xs:simpleType name="%s"><xs:restriction base="xs:date"><xs:minInclusive value="2000-01-01"/></xs:restriction></xs:simpleType>' % name, ["2001-01-01"], ["12", "1999-01-01", "abc"])
+    return ('<xs:simpleType name="%s"><xs:union memberTypes="xs:gYear xs:boolean"/></xs:simpleType>' % name, ["2001", "false"], ["abc", "12.5"])
+
+
+def xsd_clash_case(rng):
+    """-> ([imported schema (ns b), main schema (ns c)], [instances], features)"""
+    feats = {"name-clash"}
+    names = rng.sample(_CLASH_NAMES, rng.randrange(2, 6))
+    bdecl, cdecl, items = [], [], []
+    for n in names:
+        in_b = rng.random() < 0.6
+        as_complex = rng.random() < 0.2
+        if in_b:
+            db, okb, badb = _user_def(rng, "b", n)
+            bdecl.append(db)
+            bdecl.append('<xs:element name="%s" type="b:%s"/>' % (n, n))
+            items.append(("b:" + n, ['<b:%s>%s</b:%s>' % (n, v, n) for v in okb], ['<b:%s>%s</b:%s>' % (n, v, n) for v in badb]))
+            feats.add("clash-two-namespaces")
+        if as_complex:
+            cdecl.append('<xs:complexType name="%s"><xs:simpleContent><xs:extension base="xs:%s"><xs:attribute name="%s" type="xs:int" default="4"/></xs:extension></xs:simpleContent></xs:complexType>'
+                         % (n, "int" if n in ("anyType", "anySimpleType") else n, n))
+            okv = ["7"] if n in ("anyType", "anySimpleType") else [_BUILTIN_OK[n][0]]
+            badv = ["x y"] if n in ("anyType", "anySimpleType") else ([_BUILTIN_OK[n][1]] if _BUILTIN_OK[n][1] else [])
+            cdecl.append('<xs:element name="%s" type="c:%s"/>' % (n, n))
+            items.append(("c:" + n, ['<c:%s>%s</c:%s>' % (n, v, n) for v in okv] + ['<c:%s %s="5">%s</c:%s>' % (n, n, okv[0], n)],
+                          ['<c:%s>%s</c:%s>' % (n, v, n) for v in badv] + ['<c:%s %s="x">%s</c:%s>' % (n, n, okv[0], n)]))
+            feats.add("clash-complex-type")
+            continue
+        dc, ok, bad = _user_def(rng, "c", n)
+        cdecl.append(dc)
+        feats.add("clash-simple-type")
+        # global element / attribute / group / attributeGroup all called like the type
+        cdecl.append('<xs:element name="%s" type="c:%s"%s/>' % (n, n, rng.choice(["", ' default="%s"' % ok[0].strip(), ' nillable="true"'])))
+        items.append(("c:" + n, ['<c:%s>%s</c:%s>' % (n, v, n) for v in ok], ['<c:%s>%s</c:%s>' % (n, v, n) for v in bad]))
+        cdecl.append('<xs:attribute name="%s" type="c:%s" default="%s"/>' % (n, n, ok[0].strip()))
+        cdecl.append('<xs:attributeGroup name="%s"><xs:attribute ref="c:%s"/><xs:attribute name="loc" type="c:%s"/></xs:attributeGroup>' % (n, n, n))
+        cdecl.append('<xs:group name="%s"><xs:sequence><xs:element name="g%s" type="c:%s" minOccurs="0"/><xs:element name="a%s" minOccurs="0"><xs:simpleType><xs:restriction base="c:%s"/></xs:simpleType></xs:element></xs:sequence></xs:group>' % (n, n, n, n, n))
+        cdecl.append('<xs:element name="h%s"><xs:complexType><xs:group ref="c:%s"/><xs:attributeGroup ref="c:%s"/></xs:complexType></xs:element>' % (n, n, n))
+        items.append(("c:h" + n, ['<c:h%s><c:g%s>%s</c:g%s></c:h%s>' % (n, n, ok[0], n, n), '<c:h%s c:%s="%s" loc="%s"><c:a%s>%s</c:a%s></c:h%s>' % (n, n, ok[-1].strip(), ok[0].strip(), n, ok[0], n, n), '<c:h%s/>' % n],
+                      ['<c:h%s><c:g%s>%s</c:g%s></c:h%s>' % (n, n, bad[0], n, n), '<c:h%s c:%s="%s"/>' % (n, n, bad[0]), '<c:h%s loc="%s"><c:a%s>%s</c:a%s></c:h%s>' % (n, bad[-1], n, bad[0], n, n)]))
+        feats |= {"clash-element", "clash-attribute", "clash-group", "clash-anonymous-restriction"}
+        # restriction chain, list and union built on the clashing type
+        cdecl.append('<xs:simpleType name="%s_r"><xs:restriction base="c:%s"/></xs:simpleType>' % (n, n))
+        cdecl.append('<xs:simpleType name="%s_rr"><xs:restriction base="c:%s_r"/></xs:simpleType>' % (n, n))
+        members = ["c:" + n] + (["b:" + n] if in_b else []) + (["xs:" + n] if n in _BUILTIN_OK else [])
+        rng.shuffle(members)
+        cdecl.append('<xs:simpleType name="%s_u"><xs:union memberTypes="%s"/></xs:simpleType>' % (n, " ".join(members)))
+        cdecl.append('<xs:element name="r%s" type="c:%s_rr"/>' % (n, n))
+        cdecl.append('<xs:element name="u%s" type="c:%s_u"/>' % (n, n))
+        items.append(("c:r" + n, ['<c:r%s>%s</c:r%s>' % (n, v, n) for v in ok], ['<c:r%s>%s</c:r%s>' % (n, v, n) for v in bad]))
+        uok = list(ok) + ([_BUILTIN_OK[n][0]] if n in _BUILTIN_OK else [])
+        items.append(("c:u" + n, ['<c:u%s>%s</c:u%s>' % (n, v, n) for v in uok], ['<c:u%s>%s</c:u%s>' % (n, "@ @ @", n)]))
+        if "list" not in dc and "union" not in dc:
+            cdecl.append('<xs:simpleType name="%s_l"><xs:list itemType="c:%s"/></xs:simpleType>' % (n, n))
+            cdecl.append('<xs:element name="l%s" type="c:%s_l"/>' % (n, n))
+            items.append(("c:l" + n, ['<c:l%s>%s %s</c:l%s>' % (n, ok[0].strip(), ok[-1].strip(), n)], ['<c:l%s>%s %s</c:l%s>' % (n, ok[0].strip(), bad[0], n)]))
+        feats |= {"clash-restriction-chain", "clash-union", "clash-list"}
+        # the built-in of the same name next to it
+        if n in _BUILTIN_OK:
+            cdecl.append('<xs:element name="x%s" type="xs:%s"/>' % (n, n))
+            bo, bb = _BUILTIN_OK[n]
+            items.append(("c:x" + n, ['<c:x%s>%s</c:x%s>' % (n, bo, n)], ['<c:x%s>%s</c:x%s>' % (n, bb, n)] if bb else ['<c:x%s><c:q/></c:x%s>' % (n, n)]))
+    bdecl.append('<xs:element name="bdummy" type="xs:string"/>')
+    rng.shuffle(cdecl)
+    sb = ('<xs:schema xmlns:xs="http://www.w3.org/2001/XMLSchema" targetNamespace="%s" xmlns:b="%s" elementFormDefault="qualified">\n%s\n</xs:schema>\n'
+          % (NSB, NSB, "\n".join(bdecl)))
+    refs = "".join('<xs:element ref="%s"/>' % e for e in sorted({i[0] for i in items}))
+    sc = ('<xs:schema xmlns:xs="http://www.w3.org/2001/XMLSchema" targetNamespace="%s" xmlns:c="%s" xmlns:b="%s" elementFormDefault="qualified" attributeFormDefault="unqualified">\n'
+          '<xs:import namespace="%s"/>\n%s\n<xs:element name="doc"><xs:complexType><xs:choice minOccurs="0" maxOccurs="unbounded">%s</xs:choice></xs:complexType></xs:element>\n</xs:schema>\n'
+          % (NS, NS, NSB, NSB, "\n".join(cdecl), refs))
+    insts = []
+    hdr = '<c:doc xmlns:c="%s" xmlns:b="%s" xmlns:xsi="http://www.w3.org/2001/XMLSchema-instance" xmlns:xs="http://www.w3.org/2001/XMLSchema">' % (NS, NSB)
+    for i in range(rng.randrange(4, 8)):
+        valid = i % 2 == 0
+        body = []
+        for _ in range(rng.randrange(2, 9)):
+            el, ok, bad = rng.choice(items)
+            body.append(rng.choice(ok) if valid or not bad or rng.random() < 0.3 else rng.choice(bad))
+        insts.append(hdr + "".join(body) + "</c:doc>")
+    return [sb, sc], insts, feats
